@@ -579,6 +579,9 @@ func (g *bridgeGen) plan(mode string) (*BlockPlan, error) {
 			id := g.wdNext
 			g.wdNext++
 			amt, price := uint64(10000+r.Intn(90000)), uint64(1+r.Intn(40))
+			if rare(8) { // whale withdrawals around 2^64 / 1e10 satoshi (the paid notice scales satoshi to wei)
+				amt = []uint64{1_844_674_407, 1_844_674_708, 1_844_675_000 + uint64(r.Intn(100_000_000))}[r.Intn(3)]
+			}
 			br.Withdraws = append(br.Withdraws, &goattypes.WithdrawalRequest{Id: id, Amount: amt, TxPrice: price, Address: addr})
 			wds = append(wds, Ev{"id": int64(id), "amount": int64(amt), "price": int64(price), "addr": g.addrID(addr), "net": net, "kind": kind})
 		}
